@@ -74,19 +74,21 @@ theorem typed (ops : List Op) (k : ResId) (c : Cell) (h : (run {} ops).get k = s
 
 /-- **`mismatch_panics`**: each of the four id-taking calls, given a type argument that disagrees
 with the id, panics with the type-id assertion and leaves both tables unchanged (the value passed
-to `insert_by_id` is dropped by the unwinding, nothing else is). -/
+to `insert_by_id` is dropped by the unwinding, nothing else is — in particular not the stored
+value, whether or not its `Drop` would panic). -/
 theorem mismatch_panics (w : World) (a : Nat) (k : ResId) (t : Nat) (h : a ≠ k.ty) :
     (w.step (.insertById a k t)) =
       ({ w with created := w.created ++ [t], dropped := w.dropped ++ [t] }, .panic .wrongType) ∧
     (w.step (.removeById a k)) = (w, .panic .wrongType) ∧
     (w.step (.tryFetchById a k)) = (w, .panic .wrongType) ∧
-    (w.step (.tryFetchMutById a k)) = (w, .panic .wrongType) := by
-  simp [step, insertById, removeById, tryFetchById, tryFetchMutById, h]
+    (w.step (.tryFetchMutById a k)) = (w, .panic .wrongType) ∧
+    (w.step (.insertFused a k t)) = (w.step (.insertById a k t)) := by
+  simp [step, insertById, insertFused, removeById, tryFetchById, tryFetchMutById, h]
 
 /-- and conversely the assertion fires only then -/
 theorem wrongType_only_on_mismatch (w : World) (op : Op) (h : (w.step op).2 = .panic .wrongType) :
     ∃ a k, a ≠ k.ty ∧ ((∃ t, op = .insertById a k t) ∨ op = .removeById a k ∨ op = .tryFetchById a k ∨
-      op = .tryFetchMutById a k) := step_wrongType w op h
+      op = .tryFetchMutById a k ∨ (∃ t, op = .insertFused a k t)) := step_wrongType w op h
 
 /-- **`linear`**: in every history whose value arguments carry pairwise distinct tokens, every
 token that was created is, at the end, in exactly one of {stored in the world, returned to the
@@ -119,6 +121,84 @@ theorem dropped_exactly_once (ops : List Op) (hd : (ops.flatMap Op.tokens).Nodup
   simp only [dropWorld, World.tokens, List.count_append] at h ⊢
   omega
 
+/-! ## values whose `Drop` panics, closures that panic
+
+The three data invariants and `linear` above quantify over *all* operations, including the ones
+below; these theorems say what each of them does to the map. -/
+
+/-- **insert replaces, also when the replaced value's `Drop` panics**: the call is unwound by that
+panic, but the slot holds the new value, the old value's `drop` ran exactly once, and nothing else
+was dropped (same state as the plain call) -/
+theorem insert_replaces_when_drop_panics (w : World) (a : Nat) (k : ResId) (t t0 : Nat) (h : a = k.ty)
+    (h0 : w.abs k = some t0) :
+    (w.step (.insertFused a k t)).2 = .unwound .drop ∧
+    (w.step (.insertFused a k t)).1 = (w.step (.insertById a k t)).1 ∧
+    (w.step (.insertFused a k t)).1.abs k = some t ∧
+    (w.step (.insertFused a k t)).1.dropped = w.dropped ++ [t0] ∧
+    (w.step (.insertFused a k t)).1.created = w.created ++ [t] := by
+  have hf : (w.step (.insertFused a k t)).1 = (w.step (.insertById a k t)).1 := insertFused_fst w a k t
+  refine ⟨?_, hf, ?_, ?_, ?_⟩
+  · simp [step, insertFused_out, h, h0]
+  · rw [hf]; exact (insert_replaces w a k t h).1
+  · rw [hf]
+    cases hk : w.get k with
+    | none => simp [World.abs, hk] at h0
+    | some c =>
+      simp [World.abs, hk] at h0
+      simp [step, insertById, h, hk, h0]
+  · rw [hf]; simp [step, insertById, h]
+
+/-- a vacant slot drops nothing: the armed call is the plain call -/
+theorem insert_vacant_drops_nothing (w : World) (a : Nat) (k : ResId) (t : Nat) (h0 : w.abs k = none) :
+    w.step (.insertFused a k t) = w.step (.insertById a k t) := by
+  have hk : w.get k = none := (abs_none_iff w k).mp h0
+  simp only [step, insertFused, hk]
+  generalize w.insertById a k t = r
+  obtain ⟨w', o⟩ := r
+  cases o <;> rfl
+
+/-- **`entry().or_insert(v)` never overwrites, also when `v`'s `Drop` panics**: on an occupied slot
+`v` is dropped (its `drop` ran once, the call is unwound), the stored value stays, no guard exists -/
+theorem or_insert_occupied_drop_panics (w : World) (ty t t0 : Nat) (h : w.abs ⟨ty, 0⟩ = some t0) :
+    (w.step (.entryFault ty t .valueDrop)).2 = .unwound .drop ∧
+    (w.step (.entryFault ty t .valueDrop)).1.abs = w.abs ∧
+    (w.step (.entryFault ty t .valueDrop)).1.cells = w.cells ∧
+    (w.step (.entryFault ty t .valueDrop)).1.guards = w.guards ∧
+    (w.step (.entryFault ty t .valueDrop)).1.dropped = w.dropped ++ [t] := by
+  cases hk : w.get ⟨ty, 0⟩ with
+  | none => simp [World.abs, hk] at h
+  | some c => simp [step, entryFault, hk]; rfl
+
+/-- **`or_insert_with(f)` with an `f` that panics stores nothing**: on a vacant slot the world is
+untouched (the slot stays vacant, nothing was created); on an occupied one `f` does not run -/
+theorem or_insert_with_closure_panics (w : World) (ty t : Nat) :
+    (w.abs ⟨ty, 0⟩ = none → w.step (.entryFault ty t .closure) = (w, .unwound .closure)) ∧
+    ((w.abs ⟨ty, 0⟩).isSome → w.step (.entryFault ty t .closure) = w.step (.entry ty t false)) := by
+  cases hk : w.get ⟨ty, 0⟩ with
+  | none => simp [World.abs, hk, step, entryFault]
+  | some c => simp [World.abs, hk, step, entryFault]
+
+/-- a caller that panics while holding the `entry` guard: the value is stored all the same -/
+theorem entry_stores_before_caller_panics (w : World) (ty t : Nat) (bv : Bool) :
+    (w.step (.entryFault ty t (.guardHeld bv))).1 = (w.step (.entry ty t bv)).1 :=
+  entryFault_guardHeld_fst w ty t bv
+
+/-- the caller dropping a value `remove` handed back: conservation goes on -/
+theorem dropReturned_keeps_linear {w : World} (hm : MapOk w) (t : Nat) : MapOk (w.dropReturned t) := by
+  refine ⟨?_, ?_, dropReturned_linear hm.linear t⟩
+  · unfold dropReturned; split <;> exact hm.typed
+  · unfold dropReturned; split <;> exact hm.keys
+
+/-- **the world dropped while the `Drop` of one stored value panics** (whichever values the table
+had dropped before it): every value created in the history is afterwards dropped exactly once, in
+the caller's hands, or leaked — exactly one of the three; none is dropped twice -/
+theorem dropWorld_panic_at_most_once (ops : List Op) (hd : (ops.flatMap Op.tokens).Nodup) (tok : Nat)
+    (before leaked : List Nat) (w' : World) (h : (run {} ops).dropWorldPanic tok before = some (w', leaked))
+    (t : Nat) (ht : t ∈ (run {} ops).created) :
+    w'.dropped.count t + w'.returned.count t + leaked.count t = 1 ∧ w'.cells = [] :=
+  dropWorldPanic_once (typed_linear_invariant ops).linear
+    (run_created_nodup (w := {}) ops (by simpa using hd)) h t ht
+
 /-! ## non-vacuity -/
 
 /-- a history with replacement, removal, entry on vacant and occupied slots, dynamic ids,
@@ -139,6 +219,35 @@ example : (run {} sample).cells.map (fun p => (p.1.ty, p.1.dyn, p.2.ty, p.2.toke
 example : ((run {} (sample.take 3)).step (.insertById 3 ⟨2, 5⟩ 13)).2 = .panic .wrongType ∧
     (run {} (sample.take 4)).abs ⟨1, 0⟩ = some 11 ∧ (run {} (sample.take 4)).guards = [] := by decide
 
+/-- a history with the faults: replacing a value whose `Drop` panics, `or_insert` of such a value
+on an occupied slot, a panicking `or_insert_with` closure on a vacant and on an occupied slot, a
+caller panicking with the entry guard, an `exec` closure that panics -/
+def faulty : List Op :=
+  [.insert 1 10, .insertFused 1 ⟨1, 0⟩ 11, .insertFused 2 ⟨2, 3⟩ 12, .entryFault 1 13 .valueDrop,
+   .entryFault 3 0 .closure, .entryFault 1 0 .closure, .entryFault 3 14 (.guardHeld true),
+   .execFault [⟨0, true, false, true⟩] [15], .removeById 2 ⟨2, 3⟩]
+
+example : (faulty.flatMap Op.tokens).Nodup := by decide
+
+example : (run {} faulty).cells.map (fun p => (p.1.ty, p.1.dyn, p.2.ty, p.2.token, p.2.borrow)) =
+      [(1, 0, 1, 11, .free), (3, 0, 3, 14, .free), (0, 0, 0, 15, .free)] ∧
+    (run {} faulty).created = [10, 11, 12, 13, 14, 15] ∧
+    (run {} faulty).returned = [12] ∧ (run {} faulty).dropped = [10, 13] ∧ (run {} faulty).guards = [] ∧
+    ((run {} (faulty.take 1)).step (.insertFused 1 ⟨1, 0⟩ 11)).2 = .unwound .drop ∧
+    ((run {} (faulty.take 2)).step (.insertFused 2 ⟨2, 3⟩ 12)).2 = .unit ∧
+    ((run {} (faulty.take 4)).step (.entryFault 3 0 .closure)).2 = .unwound .closure ∧
+    ((run {} (faulty.take 5)).step (.entryFault 1 0 .closure)).2 = .seen 11 ∧
+    ((run {} (faulty.take 7)).step (.execFault [⟨0, true, false, true⟩] [15])).2 = .unwound .closure := by decide
+
+/-- dropping that world while the `Drop` of value 14 panics after value 15 was dropped: 11 is leaked -/
+example : (((run {} faulty).dropReturned 12).dropWorldPanic 14 [15]).map
+      (fun r => (r.1.dropped, r.1.returned, r.1.cells.length, r.2)) =
+    some ([10, 13, 12, 15, 14], [], 0, [11]) := by decide
+
+/-- and an order the table cannot have produced is rejected -/
+example : ((run {} faulty).dropWorldPanic 14 [15, 15]).isNone ∧ ((run {} faulty).dropWorldPanic 14 [12]).isNone ∧
+    ((run {} faulty).dropWorldPanic 12 []).isNone := by decide
+
 end C09
 end Shred
 
@@ -155,3 +264,10 @@ end Shred
 #print axioms Shred.C09.wrongType_only_on_mismatch
 #print axioms Shred.C09.linear
 #print axioms Shred.C09.dropped_exactly_once
+#print axioms Shred.C09.insert_replaces_when_drop_panics
+#print axioms Shred.C09.insert_vacant_drops_nothing
+#print axioms Shred.C09.or_insert_occupied_drop_panics
+#print axioms Shred.C09.or_insert_with_closure_panics
+#print axioms Shred.C09.entry_stores_before_caller_panics
+#print axioms Shred.C09.dropReturned_keeps_linear
+#print axioms Shred.C09.dropWorld_panic_at_most_once
